@@ -185,7 +185,8 @@ def explore(sc):
         if name in FAILABLE:
             for e in ERRNOS:
                 pr, _, st, key, _ = run_case(sc, exp, ("fail", n, e))
-                if st == "EXIT 0" and name in ("write",):
+                # EINTR (4) is not a failure: the write is retried, and the run may succeed with the complete output
+                if st == "EXIT 0" and name in ("write",) and e != 4:
                     pr = pr + [f"write call #{n} failed with errno {e} but the run ended with status 0"]
                 out.append((f"{sc['name']}: call #{n} ({name}) fails with errno {e}", True, key, pr, {"call": calls[n - 1]}))
         if name == "write":
